@@ -28,7 +28,7 @@ INITS = [
 
 DOMAIN_OPS = [
     ("append", False), ("append", True),
-    ("shift_x", 1.0), ("shift_x", -2.5), ("shift_y", 2.0),
+    ("shift_x", 1.0), ("shift_x", -2.5), ("shift_x", 5e6), ("shift_y", 2.0),
     ("scale_x", 2.0), ("scale_x", 0.5), ("scale_y", 2.0), ("scale_y", -1.0),
     ("normalize_x", 0.0, 1.0), ("normalize_y", 0.0, 10.0),
     ("repeat", 2), ("repeat", 3),
@@ -42,7 +42,7 @@ RESHAPE_OPS = (
     [("recreate", st, n) for st in RC.STRATS for n in (2, 3)]
     + [("integral_match", "trapezoid", "rectangle"), ("integral_match", "rectangle", "trapezoid")]
     + [("interpolate_n", 7, m) for m in ("linear", "constant", "cubic", "spline")]
-    + [("interpolate_grid", False, "linear"), ("interpolate_grid", True, "linear")]
+    + [("interpolate_grid", False, "linear"), ("interpolate_grid", True, "linear"), ("interpolate_both", 9, "linear")]
     + [("smooth", 0), ("smooth", 0.5), ("smooth", None)]
     + [("trend", f, nz) for f in ("half-t", "one", "sin") for nz in (False, True)]
     + [("noise", "scalar"), ("noise", "list")]
@@ -216,6 +216,14 @@ class Runner:
             x0, x1 = float(gx[0]), float(gx[-1])
             grid = [x0, x0 + 0.25 * (x1 - x0), (x0 + x1) / 2, x1]
             return ("interpolate", (), {"new_x": grid if op[1] else np.array(grid), "method": op[2]})
+        if k == "interpolate_both":
+            # n AND new_x given: documented "n ignored if new_x specified"
+            if L < 2:
+                return None
+            gx = self.wv.get()[0]
+            x0, x1 = float(gx[0]), float(gx[-1])
+            grid = [x0, x0 + 0.25 * (x1 - x0), (x0 + x1) / 2, x1]
+            return ("interpolate", (), {"n": op[1], "new_x": np.array(grid), "method": op[2]})
         if k == "smooth":
             return ("smooth", (op[1],), {}) if L >= 4 else None
         if k == "trend":
